@@ -3,7 +3,7 @@
    OCaml types; nat, positive, N, Z stay the extracted inductives. *)
 From Coq Require Extraction.
 From Coq Require Import ExtrOcamlBasic.
-From Frugal Require Import Bytes Wire Skip Values Desc Spec Routines Encode Decode Checks.
+From Frugal Require Import Bytes Wire Skip Values Desc Spec Routines Encode Decode Checks Tags.
 From Frugal.gen Require Import Params Tables.
 Extraction Language OCaml.
 Extraction "model.ml"
@@ -14,4 +14,5 @@ Extraction "model.ml"
   denote encode_spec absorb_top absorb need skipped_depth
   append_struct encoded_size encode_object
   decode_object decode_struct
+  resolve_fields build_env accepted accepted_with resolve_universe parse_type_top lookup_struct_tag
   maxDepthLimit params_ok tables_ok legacy_ok access_ok.
